@@ -24,7 +24,7 @@ CLASSES = ["Discretizer", "QuantitativeDiscretizer", "QualitativeDiscretizer", "
 # ------------------------------------------------------------------------------------------------
 def gen_quant_column(rng, n, flavour=None):
     flavour = flavour or rng.choice(["uniform", "uniform", "discrete", "yyyymm", "close", "big",
-                                     "negative", "tiny", "halves", "timestamp"])
+                                     "negative", "tiny", "halves", "timestamp", "near_constant"])
     if flavour == "uniform":
         lo, hi = rng.choice([(0, 1), (-5, 5), (0, 1000), (-1e6, 1e6)])
         xs = [rng.uniform(lo, hi) for _ in range(n)]
@@ -44,6 +44,10 @@ def gen_quant_column(rng, n, flavour=None):
         base, step = rng.choice([(1700000000, 1), (1700000000, 7), (1.5e12, 1), (123456789012.0, 0.5),
                                  (1.0, 2.0 ** -40), (99999999.0, 0.125)])
         xs = [base + rng.randint(0, k - 1) * step for _ in range(n)]
+    elif flavour == "near_constant":     # a single interval [inf] remains after the base discretization
+        base = rng.choice([0.0, 1.0, -3.5, 1e6])
+        share = rng.choice([0.0, 0.0, 0.02, 0.04])
+        xs = [base if rng.random() >= share else base + rng.choice([-3.0, 2.5, 6.0, 1e3]) for _ in range(n)]
     elif flavour == "big":
         xs = [rng.choice([1, -1]) * 10 ** rng.uniform(0, 300) for _ in range(n)]
     elif flavour == "negative":
